@@ -97,7 +97,7 @@ func genC18(t *rapid.T) *c18Scenario {
 				l.Token = Q(rapid.SampledFrom([]string{" lead", "trail ", " ", "tab\t", "two  ", " both "}).Draw(t, "ws_token") + fmt.Sprint(i) + rapid.SampledFrom([]string{"", " ", "  ", "\t"}).Draw(t, "ws_tail"))
 				l.Form = 0
 			case 4:
-				l.Token = Q(strings.Repeat("L", rapid.SampledFrom([]int{400, 600, 5000}).Draw(t, "long")) + fmt.Sprint(i))
+				l.Token = Q(strings.Repeat("L", rapid.SampledFrom([]int{400, 600, 5000, 400, 600, 5000, 70000, 1<<20 + 64}).Draw(t, "long")) + fmt.Sprint(i))
 			default:
 				l.Token = Q(fmt.Sprintf("irc.server.%d", i))
 			}
@@ -313,6 +313,7 @@ func runC18(sc *c18Scenario) *Violation {
 		switch {
 		case sc.PingFreqMS == 20:
 			stopChat := make(chan struct{})
+			chatN := 0
 			if sc.Chatty {
 				// traffic from the server does not replace the client's own keep-alive
 				go func() {
@@ -321,7 +322,13 @@ func runC18(sc *c18Scenario) *Violation {
 						case <-stopChat:
 							return
 						case <-time.After(4 * time.Millisecond):
-							conn.SendLine(":irc.server NOTICE me :still here")
+							// (every other line is a PING of the server's own: answering those is no
+							// substitute for the client's keep-alive either)
+							if chatN++; chatN%2 == 0 {
+								conn.SendLine("PING :server-keepalive")
+							} else {
+								conn.SendLine(":irc.server NOTICE me :still here")
+							}
 						}
 					}
 				}()
